@@ -77,6 +77,20 @@ def run(chk):
       params['deep'] = {'x': {'y': leaf()}}
     lts.append({'params': params, 'tx': rng.choice(txs), 'steps': rng.randint(1, 6 if thorough else 4), 'frozen': rng.random() < 0.3,
                 'owg': rng.random() < 0.25})
+    if rng.random() < 0.3:
+      # mixed precision: low-precision parameters, float32 gradients
+      dt = rng.choice(['bf16', 'f16'])
+      def setdt(d):
+        for v in d.values():
+          if 'v' in v:
+            v['dtype'] = dt
+            v['v'] = [rng.randint(-40, 40) / 7 for _ in range(24)]
+            v['shape'] = [24]
+          else:
+            setdt(v)
+      setdt(params)
+      lts[-1]['wide_grads'] = True
+      lts[-1]['tx'] = rng.choice(['sgd', 'momentum', 'adam', 'adamw', 'chain', 'schedule'])
   nops = []
   for i in range(400 if thorough else 60):
     wrt = gen_wrt(rng)
@@ -84,6 +98,14 @@ def run(chk):
     share = rng.random() < 0.3 and 'pc' not in wrt
     nops.append({'vars': gen_vars(rng), 'wrt': wrt, 'tx': 'int_momentum' if i % 2 == 0 else rng.choice(txs),
                  'steps': rng.randint(1, 4), 'share': share})
+    if i % 2 == 1 and rng.random() < 0.4:
+      dt = rng.choice(['bf16', 'f16', 'f32'])
+      for v in nops[-1]['vars']:
+        v['dtype'] = dt
+        v['val'] = [rng.randint(-40, 40) / 7 for _ in range(24)]
+      nops[-1]['wide_grads'] = True
+      if nops[-1]['tx'] == 'int_momentum':
+        nops[-1]['tx'] = 'adam'
   ntss = [{'vars': gen_vars(rng), 'tx': rng.choice(txs), 'steps': rng.randint(1, 3)} for _ in range(60 if thorough else 10)]
   metrics = []
   for n in range(1, 7 if thorough else 6):
@@ -98,6 +120,12 @@ def run(chk):
       cuts = sorted(rng.sample(range(1, n), rng.randint(0, min(6, n - 1))))
       parts.append([b - a for a, b in zip([0] + cuts, cuts + [n])])
     metrics.append({'stream': stream, 'partitions': parts})
+    if rng.random() < 0.4:
+      # every value repeated 65536 times: counts reach 2**16 per value, products of counts exceed 2**32
+      metrics[-1]['rep'] = 65536
+      metrics[-1]['stream'] = stream[:rng.randint(2, 12)]
+      n = len(metrics[-1]['stream'])
+      metrics[-1]['partitions'] = [[1] * n, [n], [n // 2, n - n // 2], [1, n - 1]]
   accs = []
   for _ in range(60 if thorough else 12):
     n = rng.randint(1, 6)
@@ -207,7 +235,7 @@ Definition chk (c : list var * nfilt * nat * list (list Z)) : bool :=
         continue
       x = r['ok']
       f = lambda k: x[k][0] / x[k][1]
-      ok = close(f('avg'), mean) and close(f('mean'), mean) and close(f('std') ** 2, var) and close(f('sem') ** 2, var / n) and x['count'] == n and \
+      ok = close(f('avg'), mean) and close(f('mean'), mean) and close(f('std') ** 2, var) and close(f('sem') ** 2 * c.get('rep', 1), var / n) and x['count'] == n * c.get('rep', 1) and \
           close(f('mm_a'), mean) and close(f('mm_mean'), mean) and x['reset_ok'] and x['after_reset'] == 3.0
       if not ok:
         chk.violation('oracle', 'a metric does not report the statistic of all values seen since the last reset (depends on the batching, or reset is incomplete)',
